@@ -7,7 +7,8 @@ import MdVerif.Driver.Traj
 import MdVerif.Driver.Topo
 import MdVerif.Driver.Writer
 import MdVerif.Driver.Sel
-open MdVerif MdVerif.Driver MdVerif.Driver.TrajP MdVerif.Driver.TopoP MdVerif.Driver.WriterP MdVerif.Driver.SelP
+import MdVerif.Driver.Mic
+open MdVerif MdVerif.Driver MdVerif.Driver.TrajP MdVerif.Driver.TopoP MdVerif.Driver.WriterP MdVerif.Driver.SelP MdVerif.Driver.MicP
 
 def handle (line : String) : String :=
   let ws := (line.splitOn " ").filter (· ≠ "")
@@ -17,6 +18,7 @@ def handle (line : String) : String :=
   | "topsubset" :: _ | "topjoin" :: _ | "toprows" :: _ | "toppdb" :: _ | "topeqhash" :: _ => handleTopo ws
   | "writer" :: _ | "save" :: _ => handleWriter ws
   | "sel" :: _ => handleSel ws
+  | "mic" :: _ => handleMic ws
   | _ => "bad-op"
 
 partial def loop (h : IO.FS.Stream) (out : IO.FS.Stream) : IO Unit := do
